@@ -166,6 +166,11 @@ def make_boundary(fem, fc, spec, name):
             vals = value.copy()
             if ndof == 0:
                 value = 0.0
+            elif regular and ncomp >= 1 and value_spec["seed"] % 3 != 0:
+                # one value per (selected point, component): a 2-d array, C- or Fortran-contiguous (e.g. a transposed view)
+                value = value.reshape(rows, ncomp)
+                if value_spec["seed"] % 3 == 2:
+                    value = np.asfortranarray(value)
     b = fem.Boundary(f, name=name, value=value, **kw)
     ldof = np.arange(npts * dim).reshape(npts, dim)[dmask]
     return b, dict(field=spec["field"] % len(fc.fields), ldof=ldof, vals=vals, dmask=dmask)
